@@ -80,6 +80,33 @@ impl Write for FailAfter {
 
 type Viol = (String, String, serde_json::Value);
 
+/// a target that accepts at most `max` bytes per write call (a legal short write)
+struct Shared {
+    store: std::rc::Rc<std::cell::RefCell<Vec<u8>>>,
+    max: usize,
+}
+impl Write for Shared {
+    fn write(&mut self, buf: &[u8]) -> std::io::Result<usize> {
+        let k = buf.len().min(self.max);
+        self.store.borrow_mut().extend_from_slice(&buf[..k]);
+        Ok(k)
+    }
+    fn flush(&mut self) -> std::io::Result<()> {
+        Ok(())
+    }
+}
+const SINK_KINDS: usize = 5;
+const SINK_NAMES: [&str; 5] = ["accept-all", "<=1 byte per write", "<=2 bytes per write", "LineWriter(cap 2) over accept-all", "LineWriter(cap 2) over <=1 byte"];
+fn mk_sink(kind: usize, store: std::rc::Rc<std::cell::RefCell<Vec<u8>>>) -> Box<dyn Write> {
+    match kind {
+        0 => Box::new(Shared { store, max: usize::MAX }),
+        1 => Box::new(Shared { store, max: 1 }),
+        2 => Box::new(Shared { store, max: 2 }),
+        3 => Box::new(std::io::LineWriter::with_capacity(2, Shared { store, max: usize::MAX })),
+        _ => Box::new(std::io::LineWriter::with_capacity(2, Shared { store, max: 1 })),
+    }
+}
+
 /// returns (write calls executed, distinct (pos, inner content) states, violations)
 fn writers_for(input: &[u8], with_empty_writes: bool) -> (u64, u64, Vec<Viol>) {
     let n = input.len();
@@ -121,23 +148,32 @@ fn writers_for(input: &[u8], with_empty_writes: bool) -> (u64, u64, Vec<Viol>) {
             }
         }
     }
-    // tee: both targets get the full input for every chunking; a failing target is reported
+    // tee: both targets get the full input for every chunking and every pair of target behaviours
+    // (accepts everything, accepts at most 1 / 2 bytes per write call, line-buffered in front of
+    // either); a failing target is reported. The marker stands for LF here (line-buffered targets).
+    let tin: Vec<u8> = input.iter().map(|b| if *b == M { b'\n' } else { *b }).collect();
     for mask in 0..cuts {
-        let mut a: Vec<u8> = Vec::new();
-        let mut b: Vec<u8> = Vec::new();
-        {
-            let mut t = tee(&mut a, &mut b);
-            let mut start = 0;
-            for i in 0..n {
-                if i + 1 == n || mask & (1 << i) != 0 {
-                    t.write_all(&input[start..=i]).unwrap();
-                    calls += 1;
-                    start = i + 1;
+        for ka in 0..SINK_KINDS {
+            for kb in 0..SINK_KINDS {
+                let a = std::rc::Rc::new(std::cell::RefCell::new(Vec::new()));
+                let b = std::rc::Rc::new(std::cell::RefCell::new(Vec::new()));
+                {
+                    let mut t = tee(mk_sink(ka, a.clone()), mk_sink(kb, b.clone()));
+                    let mut start = 0;
+                    for i in 0..n {
+                        if i + 1 == n || mask & (1 << i) != 0 {
+                            t.write_all(&tin[start..=i]).unwrap();
+                            calls += 1;
+                            start = i + 1;
+                        }
+                    }
+                    t.flush().unwrap();
+                }
+                let (a, b) = (a.borrow().clone(), b.borrow().clone());
+                if a != tin || b != tin {
+                    viols.push(("tee:content".into(), format!("TeeWrite input {:?} mask {mask:b} targets ({}, {}): targets hold {:?} / {:?}", String::from_utf8_lossy(&tin), SINK_NAMES[ka], SINK_NAMES[kb], String::from_utf8_lossy(&a), String::from_utf8_lossy(&b)), json!({"kind": "tee", "input": input, "mask": mask, "sinks": [ka, kb]})));
                 }
             }
-        }
-        if a != input || b != input {
-            viols.push(("tee:content".into(), format!("TeeWrite input {:?} mask {mask:b}: targets hold {:?} / {:?}", String::from_utf8_lossy(input), String::from_utf8_lossy(&a), String::from_utf8_lossy(&b)), json!({"kind": "tee", "input": input, "mask": mask})));
         }
     }
     for k in 0..n {
